@@ -12,7 +12,9 @@ Core Lean only (compiled into `driver_c01`).  Everything lives in `namespace C01
 * **Concrete level** `Store`: the tables of the Python object (insertion-ordered association lists)
   `edgeList : key ↦ id`, `rev : id ↦ key`, `weights : id ↦ w`, `emeta : id ↦ Meta`,
   `adj : node ↦ [id]`, `nmeta : node ↦ Meta`, `nextId`, `weighted`, `hmeta`.
-  One function per Python method: `addNode addNodes addEdge addEdges removeEdge removeEdges removeNode
+  One function per Python method (helpers per branch: `touchNode fillNodeMeta linkNodes addEdgeNew addEdgeOld
+  addEdgesValid zipArgs addEdgesLoop unlinkNodes removeEdgeId incidentKeys shrinkInto dropNode`):
+  `addNode addNodes addEdge addEdges removeEdge removeEdges removeNode
   removeNodes setWeight setNodeMeta setEdgeMeta setHMeta setAttrH setAttrNode setAttrEdge delAttrNode
   delAttrEdge clear`, all `Store → … → Store × Out` (`Out = ok | rej`; `rej` = the method raised).
   `apply : Store → Op → Store × Out` dispatches; `answer : Store → Query → Ans` are the read-only methods.
@@ -22,6 +24,9 @@ Core Lean only (compiled into `driver_c01`).  Everything lives in `namespace C01
 * **Histories**: `State = List Store` (slots, for `copy`), `Cmd = new i w hm | copy i j | on i op`,
   `step : State → Cmd → State × Out`, `run : State → List Cmd → State`, `init k`; same on the spec side
   (`SState`, `Spec.step`, `Spec.run`, `Spec.init`).  `query : State → Nat → Query → Ans`.
+* Proved facts to build on (`Hgxv/Proofs/C01*.lean`): `Inv` (representation invariant) with `run_inv`;
+  `sim_apply : Inv s → op.WF → Sim (apply s op) (Spec.apply (abs s) op)`; `answer_abs : Inv s → answer s q =
+  Spec.answer (abs s) q`; `run_sim`, `query_sim`; `apply_rej`; `Inv.incidentKeys_eq`.
 * Well-formedness of inputs (the property's quantifier: hyperedges are node *sets*): `Op.WF`, `Cmd.WF`
   say that every raw hyperedge handed to the store is duplicate-free.
 
